@@ -34,6 +34,7 @@ type Tracer struct {
 	calls int
 	seen  map[string]struct{} // distinct (op, args) keys
 	nontr int
+	dropped int
 }
 
 func NewTracer(path string) *Tracer {
@@ -56,6 +57,14 @@ func (t *Tracer) Emit(e Event, nontrivial bool) {
 		e.A = map[string]any{}
 	}
 	if e.R == nil {
+		e.R = []any{}
+	}
+	if tooBig(e.A) {
+		t.dropped++ // arguments not expressible in TLC's 32-bit integers: not a case
+		return
+	}
+	if tooBig(e.R) && e.Bad == "" {
+		e.Bad = "result outside the model's integer range"
 		e.R = []any{}
 	}
 	e.Real = stringifyBig(e.Real)
@@ -247,4 +256,41 @@ func stringifyBig(v any) any {
 		return out
 	}
 	return v
+}
+
+const modelIntLimit = int64(1) << 30
+
+// tooBig reports whether a value contains an integer TLC could not represent.
+func tooBig(v any) bool {
+	switch x := v.(type) {
+	case map[string]any:
+		for _, y := range x {
+			if tooBig(y) {
+				return true
+			}
+		}
+	case []any:
+		for _, y := range x {
+			if tooBig(y) {
+				return true
+			}
+		}
+	case []int64:
+		for _, y := range x {
+			if y >= modelIntLimit || y <= -modelIntLimit {
+				return true
+			}
+		}
+	case [][]int64:
+		for _, y := range x {
+			if tooBig(y) {
+				return true
+			}
+		}
+	case int64:
+		return x >= modelIntLimit || x <= -modelIntLimit
+	case int:
+		return int64(x) >= modelIntLimit || int64(x) <= -modelIntLimit
+	}
+	return false
 }
